@@ -400,7 +400,7 @@ fn c08_case(seed: u64, index: u64, md: &mut Model, rep: &mut Report) {
 }
 
 // ------------------------------------------------------------------------------------------------ C13
-fn c13_case(seed: u64, index: u64, rep: &mut Report) {
+fn c13_case(seed: u64, index: u64, md: &mut Model, rep: &mut Report) {
     let mut r = Rng::for_case(seed, 113, index);
     let n = r.range(1, 3) as usize;
     let fifo = r.chance(2, 3);
@@ -412,6 +412,12 @@ fn c13_case(seed: u64, index: u64, rep: &mut Report) {
     let mut msgs: Vec<(usize, Vec<u8>)> = vec![];
     let mut delivered: Vec<BTreeSet<usize>> = vec![BTreeSet::new(); n];
     let mut snaps: Vec<(Snapshot, String, bool, usize, usize)> = vec![]; // snapshot, content at that time, gap, step, replica
+    let mut wholes: Vec<Vec<u8>> = vec![];   // the store of the snapshotting replica when the snapshot was taken (as its full diff)
+    let fmt_snap = |s: &Snapshot| {
+        let mut ds: Vec<(u64, String)> = s.delete_set.iter().map(|(c, r)| (c.get(), r.iter().map(|x| format!("{:x}-{:x}", x.start, x.end)).collect::<Vec<_>>().join(","))).collect(); ds.sort();
+        let mut sv: Vec<(u64, u32)> = s.state_map.iter().map(|(c, k)| (c.get(), *k)).collect(); sv.sort();
+        format!("{}@{}", if ds.is_empty() { "_".to_string() } else { ds.iter().map(|(c, r)| format!("{:x}[{}]", c, r)).collect::<Vec<_>>().join(";") },
+                         if sv.is_empty() { "_".to_string() } else { sv.iter().map(|(c, k)| format!("{:x}:{:x}", c, k)).collect::<Vec<_>>().join(",") }) };
     let mut script = vec![];
     let mut fails: Vec<serde_json::Value> = vec![];
     let mut tag = 0u64;
@@ -442,6 +448,13 @@ fn c13_case(seed: u64, index: u64, rep: &mut Report) {
                 (Ok(a), Ok(b)) => if a != s || b != s { fails.push(json!({"class": "snapshot-codec-roundtrip", "step": step})); },
                 _ => fails.push(json!({"class": "snapshot-codec-error", "step": step})),
             }
+            // the transcription of ReadTxn::snapshot (Crdt/Snapshot.v: state vector up to the first hole, delete set of the store), fed
+            // the replica's store, gives the same snapshot
+            let whole = reps[sr].doc.transact().encode_diff_v1(&StateVector::default());
+            let ms = md.ask(&format!("SNP snap {}", hex(&whole)));
+            rep.count("c13_snapshots_compared_with_the_transcription");
+            if ms != format!("ok {}", fmt_snap(&s)) { rep.disagree(json!({"kind": "snapshot transcription (SNP snap)", "model": ms.chars().take(400).collect::<String>(), "impl": fmt_snap(&s), "store": hex(&whole), "case": {"stream": 113, "index": index, "seed": seed}})); }
+            wholes.push(whole);
             snaps.push((s, public_dump(&reps[sr].doc), has_gap(&reps[sr].doc), step, sr));
             script.push(format!("snapshot#{} of r{}", snaps.len() - 1, sr));
         }
@@ -456,6 +469,23 @@ fn c13_case(seed: u64, index: u64, rep: &mut Report) {
                 rep.count("c13_restores");
                 let class_gap = if *gap { "-gap-at-snapshot" } else { "" };
                 let bytes = match enc { Ok(Ok(b)) => b, Ok(Err(e)) => { fails.push(json!({"class": format!("restore-error{class_gap}"), "error": format!("{e}"), "snapshot": si})); continue; } Err(p) => { fails.push(json!({"class": format!("restore-panic{class_gap}"), "error": p, "snapshot": si, "taken_at": at, "now": step})); continue; } };
+                // the transcription of Store::encode_state_from_snapshot / write_blocks_to (Crdt/Snapshot.v), fed the replica's store
+                // as it is NOW and the old snapshot, writes the same update; the later store extends the one the snapshot was taken of
+                // (hypothesis of snp_snapshot_of_earlier_state: the model's relation holds between every pair of states reached)
+                if !v2 {
+                    let now = reps[*sr].doc.transact().encode_diff_v1(&StateVector::default());
+                    let m = md.ask(&format!("SNP enc 1 {} {}", hex(&now), hex(&s.encode_v1())));
+                    rep.count("c13_restores_compared_with_the_transcription");
+                    let mut it = m.split(' ');
+                    match (it.next(), it.next()) {
+                        (Some("ok"), Some(hx)) if *hx == hex(&bytes) || md.ask(&format!("DEC update {}", hx)) == md.ask(&format!("DEC update {}", hex(&bytes))) => {
+                            if m.contains("wf=1") && m.contains("cut=1") { rep.count("c13_restores_within_the_hypotheses_of_snp_restore_units_exact"); } }
+                        _ => rep.disagree(json!({"kind": "encode_state_from_snapshot transcription (SNP enc)", "model": m.chars().take(500).collect::<String>(), "impl": hex(&bytes), "store": hex(&now), "snapshot": hex(&s.encode_v1()), "case": {"stream": 113, "index": index, "seed": seed}})),
+                    }
+                    let e = md.ask(&format!("SNP ext {} {}", hex(&wholes[si]), hex(&now)));
+                    if e.starts_with("ok ext=1") { rep.count("c13_later_stores_that_extend_the_snapshot_store"); if e.contains("holes=1") { rep.count("c13_snapshot_stores_with_holes"); } }
+                    else { rep.disagree(json!({"kind": "a later store does not extend the store the snapshot was taken of (SNP ext)", "answer": e, "then": hex(&wholes[si]), "now": hex(&now), "case": {"stream": 113, "index": index, "seed": seed}})); }
+                }
                 let fresh = Replica::new(900, DocCfg::default());
                 let res = if v2 { fresh.apply_v2(&bytes) } else { fresh.apply_v1(&bytes) };
                 let got = public_dump(&fresh.doc);
@@ -465,6 +495,23 @@ fn c13_case(seed: u64, index: u64, rep: &mut Report) {
             }
         }
         if !fails.is_empty() { break; }
+    }
+    // fixed input (found by the Coq transcription, Crdt/SnapshotProofs.v snp_write_blocks_to_res_ok_pre_1ea45c9_refuted): a client
+    // whose block list ends at u32::MAX - one collected range of 2^32-1 clocks received from a peer - can be snapshotted and restored
+    if index == 0 {
+        let a = Replica::new(9, DocCfg::default());
+        let bytes: Vec<u8> = vec![1, 1, 5, 0, 0, 0xFF, 0xFF, 0xFF, 0xFF, 0x0F, 0];
+        let _ = a.apply_v1(&bytes);
+        let s = a.doc.transact().snapshot();
+        let enc = catch(std::panic::AssertUnwindSafe(|| { let t = a.doc.transact(); let mut e = yrs::updates::encoder::EncoderV1::new(); t.encode_state_from_snapshot(&s, &mut e).map(|_| yrs::updates::encoder::Encoder::to_vec(e)) }));
+        let whole = a.doc.transact().encode_diff_v1(&StateVector::default());
+        let m = md.ask(&format!("SNP enc 1 {} {}", hex(&whole), hex(&s.encode_v1())));
+        rep.count("c13_fixed_inputs");
+        match enc {
+            Ok(Ok(b)) => { if !m.starts_with(&format!("ok {}", hex(&b))) { rep.disagree(json!({"kind": "encode_state_from_snapshot transcription (SNP enc), list ending at u32::MAX", "model": m, "impl": hex(&b)})); } }
+            Ok(Err(e)) => fails.push(json!({"class": "restore-error", "error": format!("{e}"), "input": "a block list that ends at u32::MAX"})),
+            Err(p) => fails.push(json!({"class": "restore-panics", "error": p, "input": "a block list that ends at u32::MAX", "update": hex(&bytes)})),
+        }
     }
     // a GC-enabled document refuses
     {
@@ -483,7 +530,42 @@ fn c13_case(seed: u64, index: u64, rep: &mut Report) {
 }
 
 // ------------------------------------------------------------------------------------------------ C15
-fn c15_case(seed: u64, index: u64, rep: &mut Report) {
+// ---- the store of a replica in the notation of the runner's `GCB run` (Crdt/GcBlocks.v)
+fn gcb_flags(vs: &yrs::verif::VStore) -> String {
+    let v: Vec<String> = vs.blocks.iter().map(|(c, bs)| format!("{:x}={}", c, bs.iter().map(|b| match b {
+        yrs::verif::VBlock::Item(i) => format!("{}{}{}", i.deleted as u8, i.keep as u8, i.countable as u8),
+        yrs::verif::VBlock::GC(..) => "100".to_string(), yrs::verif::VBlock::Skip(..) => "000".to_string() }).collect::<Vec<_>>().join(","))).collect();
+    if v.is_empty() { "_".into() } else { v.join(";") }
+}
+fn gcb_parent(p: &yrs::verif::VParent) -> Option<String> {
+    match p { yrs::verif::VParent::Root(n) => Some(format!("r{}", hex(n.as_bytes()))), yrs::verif::VParent::Nested(id) => Some(format!("i{:x}:{:x}", id.client.get(), id.clock)), _ => None }
+}
+fn gcb_branches(vs: &yrs::verif::VStore) -> String {
+    let ids = |v: &Vec<yrs::verif::VItem>| if v.is_empty() { "_".to_string() } else { v.iter().map(|i| format!("{:x}:{:x}", i.id.client.get(), i.id.clock)).collect::<Vec<_>>().join(",") };
+    let v: Vec<String> = vs.branches.iter().filter_map(|b| { let p = gcb_parent(&b.id)?;
+        let m = if b.map.is_empty() { "_".to_string() } else { b.map.iter().map(|(k, ch)| format!("{}={}", hex(k.as_bytes()), ids(ch))).collect::<Vec<_>>().join("|") };
+        Some(format!("{}~{}~{}", p, ids(&b.seq), m)) }).collect();
+    if v.is_empty() { "_".into() } else { v.join("/") }
+}
+/// what the runner prints for a store after the collector ran: every unit with its kind (0 item with payload, 1 item whose
+/// content is Deleted, 2 GC, 3 Skip) and deletedness, then the branches unit by unit
+fn gcb_expected(vs: &yrs::verif::VStore) -> String {
+    let mut cells = vec![];
+    for (c, bs) in &vs.blocks { for b in bs {
+        let (k, len, kind, del) = match b {
+            yrs::verif::VBlock::Item(i) => (i.id.clock, i.len, if matches!(i.content, yrs::verif::VContent::Deleted(_)) { 1 } else { 0 }, i.deleted),
+            yrs::verif::VBlock::GC(id, l) => (id.clock, *l, 2, true), yrs::verif::VBlock::Skip(id, l) => (id.clock, *l, 3, false) };
+        for j in 0..len { cells.push(format!("{:x}:{:x}:{:x}{}", c, k + j, kind, if del { "d" } else { "l" })); }
+    } }
+    let units = |v: &Vec<yrs::verif::VItem>| v.iter().flat_map(|i| (0..i.len).map(move |j| format!("{:x}:{:x}", i.id.client.get(), i.id.clock + j))).collect::<Vec<_>>().join(",");
+    let mut brs: Vec<String> = vs.branches.iter().filter_map(|b| { let p = gcb_parent(&b.id)?;
+        let mut m: Vec<String> = b.map.iter().map(|(k, ch)| format!("{}={}", hex(k.as_bytes()), units(ch))).collect(); m.sort();
+        Some(format!("{}~{}~{}", p, units(&b.seq), m.join("|"))) }).collect();
+    brs.sort();
+    format!("{} {}", cells.join(";"), brs.join("/"))
+}
+
+fn c15_case(seed: u64, index: u64, md: &mut Model, rep: &mut Report) {
     let mut r = Rng::for_case(seed, 115, index);
     // authors with mixed gc settings
     let n = r.range(2, 3) as usize;
@@ -496,6 +578,9 @@ fn c15_case(seed: u64, index: u64, rep: &mut Report) {
     let cleanup = r.chance(1, 2);   // both twins clean up redundant formatting after remote transactions, or neither does
     let g = Replica::new(400, DocCfg { gc: true, cleanup, ..DocCfg::default() });
     let ng = Replica::new(401, DocCfg { cleanup, ..DocCfg::default() });
+    // a third twin without automatic collection, on which TransactionMut::gc is FORCED at random points with every kind of
+    // argument; each forced run is compared, block by block and branch by branch, with the transcription of the collector
+    let fg = Replica::new(403, DocCfg { cleanup, ..DocCfg::default() });
     let mut order: Vec<usize> = (0..h.msgs.len()).collect();
     if r.chance(1, 2) { r.shuffle(&mut order); }
     let mut deleted_any = false;
@@ -504,6 +589,43 @@ fn c15_case(seed: u64, index: u64, rep: &mut Report) {
         if std::env::var("YV_DEBUG").is_ok() { use yrs::updates::decoder::Decode; eprintln!("twin <- msg{} = {:?}\n   gc twin store before: {} skips?", m, yrs::Update::decode_v1(&h.msgs[*m].1), store_dump(&g.doc).blocks.iter().map(|(c, bs)| format!("{}: {}", c, bs.iter().map(|b| match b { yrs::verif::VBlock::Item(i) => format!("I{}+{}{}", i.id.clock, i.len, if i.deleted {"~"} else {""}), yrs::verif::VBlock::GC(id, l) => format!("G{}+{}", id.clock, l), yrs::verif::VBlock::Skip(id, l) => format!("S{}+{}", id.clock, l) }).collect::<Vec<_>>().join(" "))).collect::<Vec<_>>().join(" | ")); }
         let (a, b) = if v2 { (g.apply_v2(&h.msgs[*m].2), ng.apply_v2(&h.msgs[*m].2)) } else { (g.apply_v1(&h.msgs[*m].1), ng.apply_v1(&h.msgs[*m].1)) };
         if a.is_err() != b.is_err() { fails.push(json!({"class": "gc-twin-apply-result-differs", "step": k})); }
+        let _ = if v2 { fg.apply_v2(&h.msgs[*m].2) } else { fg.apply_v1(&h.msgs[*m].1) };
+        if r.chance(1, 3) {
+            let vs0 = store_dump(&fg.doc);
+            let whole = fg.doc.transact().encode_diff_v1(&StateVector::default());
+            let d0 = public_dump(&fg.doc);
+            // the argument: None (everything deleted) | the replica's own delete set | the delete set of a replica that may be ahead |
+            // ranges that are unaligned, lie in holes, beyond the store or name an unknown client
+            let pick = r.below(4);
+            let ods: Option<yrs::IdSet> = match pick {
+                0 => None,
+                1 => Some(fg.doc.transact().snapshot().delete_set),
+                2 => Some(h.reps[r.below(n as u64) as usize].doc.transact().snapshot().delete_set),
+                _ => { let mut s = yrs::IdSet::new();
+                    for _ in 0..r.range(1, 3) {
+                        let c = if vs0.blocks.is_empty() || r.chance(1, 8) { 999 } else { r.pick(vs0.blocks.as_slice()).0 };
+                        let end: u32 = vs0.blocks.iter().find(|(x, _)| *x == c).map(|(_, bs)| bs.iter().map(|b| match b { yrs::verif::VBlock::Item(i) => i.len, yrs::verif::VBlock::GC(_, l) | yrs::verif::VBlock::Skip(_, l) => *l }).sum()).unwrap_or(0);
+                        let start = r.below(end as u64 + 3) as u32; let len = r.range(1, 6) as u32;
+                        s.insert(yrs::ID::new(yrs::ClientID::new(c), start), len);
+                    }
+                    Some(s) }
+            };
+            let ods_s = match &ods { None => "-".to_string(), Some(s) => { let mut v: Vec<(u64, String)> = s.iter().map(|(c, rs)| (c.get(), rs.iter().map(|x| format!("{:x}-{:x}", x.start, x.end)).collect::<Vec<_>>().join(","))).collect(); v.sort(); if v.is_empty() { "_".to_string() } else { v.iter().map(|(c, rs)| format!("{:x}={}", c, rs)).collect::<Vec<_>>().join(";") } } };
+            let res = catch(std::panic::AssertUnwindSafe(|| { let mut t = fg.doc.transact_mut(); t.gc(ods.as_ref()); }));
+            rep.count("c15_forced_gc_on_the_uncollected_twin"); rep.count(["c15_forced_gc_arg_none", "c15_forced_gc_arg_own_delete_set", "c15_forced_gc_arg_foreign_delete_set", "c15_forced_gc_arg_arbitrary_ranges"][pick as usize]);
+            if let Err(e) = &res { fails.push(json!({"class": "forced-gc-panicked", "step": k, "delete_set": ods_s, "error": e})); break; }
+            if public_dump(&fg.doc) != d0 { fails.push(json!({"class": "forced-gc-changed-content", "step": k, "delete_set": ods_s, "before": d0, "after": public_dump(&fg.doc)})); }
+            if !vs0.blocks.is_empty() {
+                let ans = md.ask(&format!("GCB run {} {} {} {}", hex(&whole), gcb_flags(&vs0), gcb_branches(&vs0), ods_s));
+                let want = gcb_expected(&store_dump(&fg.doc));
+                rep.count("c15_forced_gc_compared_with_the_transcription");
+                if ans.contains("total_ok=1") { rep.count("c15_forced_gc_stores_within_gcb_total_ok"); }
+                let body = ans.strip_prefix("ok ").map(|x| x.split(" total_ok=").next().unwrap_or("").to_string());
+                if body.as_deref() != Some(want.as_str()) { rep.disagree(json!({"kind": "collector transcription (GCB run)", "step": k, "delete_set": ods_s, "model": ans.chars().take(1500).collect::<String>(), "impl": want.chars().take(1500).collect::<String>(), "store": hex(&whole), "flags": gcb_flags(&vs0), "branches": gcb_branches(&vs0), "case": {"stream": 115, "index": index, "seed": seed}})); }
+                else if !ans.contains("total_ok=1") || !ans.contains("clients_ok=1") { rep.disagree(json!({"kind": "a reachable store is outside the hypotheses of gcb_collect_all_total", "answer": ans.chars().rev().take(40).collect::<String>().chars().rev().collect::<String>(), "store": hex(&whole), "flags": gcb_flags(&vs0), "branches": gcb_branches(&vs0)})); }
+            }
+            if public_dump(&fg.doc) != public_dump(&ng.doc) { fails.push(json!({"class": "forced-gc-twin-content-differs", "step": k})); }
+        }
         if r.chance(1, 4) { let d0 = public_dump(&g.doc); { let mut t = g.doc.transact_mut(); t.gc(None); } if public_dump(&g.doc) != d0 { fails.push(json!({"class": "forced-gc-changed-content", "step": k, "before": d0, "after": public_dump(&g.doc)})); } rep.count("c15_forced_gc"); }
         let (pg, pn) = (public_dump(&g.doc), public_dump(&ng.doc));
         rep.count("c15_twin_steps");
@@ -548,7 +670,7 @@ pub fn run(prop: &str, tier: &str, seed: u64, workers: usize) -> Report {
             if ci as usize % nw != w { continue; }
             if let Ok(only) = std::env::var("YV_ONLY") { if only.parse::<u64>().ok() != Some(ci) { continue; } }
             let res = catch(std::panic::AssertUnwindSafe(|| { let mut r2 = Report::default();
-                match prop { "C06" => { let mut m = Model::spawn(); c06_case(seed, ci, &mut m, &mut r2) }, "C08" => { let mut m = Model::spawn(); c08_case(seed, ci, &mut m, &mut r2) }, "C13" => c13_case(seed, ci, &mut r2), _ => c15_case(seed, ci, &mut r2) }
+                match prop { "C06" => { let mut m = Model::spawn(); c06_case(seed, ci, &mut m, &mut r2) }, "C08" => { let mut m = Model::spawn(); c08_case(seed, ci, &mut m, &mut r2) }, "C13" => { let mut m = Model::spawn(); c13_case(seed, ci, &mut m, &mut r2) }, _ => { let mut m = Model::spawn(); c15_case(seed, ci, &mut m, &mut r2) } }
                 r2 }));
             match res { Ok(r2) => rep.merge(r2), Err(e) => { rep.evaluations += 1; rep.fail(json!({"property": prop, "class": "panic", "error": e, "case": {"index": ci, "seed": seed}})); } }
         }
